@@ -555,6 +555,43 @@ func (w *c13World) apply(r *Rec, op string) (out string) {
 			panic("param update: " + err.Error())
 		}
 		return "ok"
+	case "rvparams":
+		// rvparams VIA ENABLE K (DENOM AMT|nil)*K — VIA = prop: what a ParameterChangeProposal does (Subspace.Update of PerBlockReward,
+		// then EnableVesting); VIA = genesis: rvesting InitGenesis (SetParamSet). Rejected (error / panic) => nothing is written.
+		k := int(pu(f[3]))
+		var coins sdk.Coins
+		var js []string
+		for i := 0; i < k; i++ {
+			d := string(unhx(f[4+2*i]))
+			if f[5+2*i] == "nil" {
+				coins = append(coins, sdk.Coin{Denom: d})
+				js = append(js, fmt.Sprintf(`{"denom":%q}`, d))
+			} else {
+				amt, _ := sdk.NewIntFromString(f[5+2*i])
+				coins = append(coins, sdk.Coin{Denom: d, Amount: amt})
+				js = append(js, fmt.Sprintf(`{"denom":%q,"amount":%q}`, d, f[5+2*i]))
+			}
+		}
+		cctx, write := w.ctx.CacheContext()
+		var err error
+		pan, _ := safely(func() {
+			if f[1] == "genesis" {
+				w.app.RVestingKeeper.InitGenesis(cctx, &rvestingtypes.GenesisState{Params: rvestingtypes.Params{EnableVesting: f[2] == "1", PerBlockReward: coins}})
+				return
+			}
+			ss := w.app.GetSubspace(rvestingtypes.ModuleName)
+			if err = ss.Update(cctx, rvestingtypes.KeyPerBlockReward, []byte("["+strings.Join(js, ",")+"]")); err != nil {
+				return
+			}
+			err = ss.Update(cctx, rvestingtypes.KeyEnableVesting, []byte(map[bool]string{true: "true", false: "false"}[f[2] == "1"]))
+		})
+		if pan || err != nil {
+			r.Count("rvparams.rejected")
+			return "err"
+		}
+		write()
+		r.Count("rvparams." + f[1])
+		return "ok"
 	case "rawx":
 		w.reachable = false
 		w.ctx.KVStore(w.app.GetKey(host.StoreKey)).Set(unhx(f[1]), unhx(f[2]))
@@ -579,6 +616,16 @@ func (w *c13World) apply(r *Rec, op string) (out string) {
 		}
 		w.gen = g
 		w.list1 = w.c13Listing(g)
+		// the exported parameters are the stored parameters (independent of any re-import): PR[...] of the listing = p[...] of the dump
+		if w.reachable {
+			if pr, pd := c13Section(w.list1, " PR["), c13Section(w.dump1, " p["); pr != pd {
+				r.Find(Finding{Sig: "C13:export-differs-from-store:params", What: "the exported parameters differ from the parameters in the store",
+					Ops: append([]string{}, w.hist...), Obs: "exported " + pr, Req: "stored " + pd})
+				r.Count("export.params-differ")
+			} else {
+				r.Count("export.params-same")
+			}
+		}
 		w.c13CheckCanonical(r)
 		r.Count("export.ok")
 		return w.list1
@@ -672,6 +719,18 @@ func (w *c13World) apply(r *Rec, op string) (out string) {
 	return "bad-op"
 }
 
+func c13Section(line, tag string) string {
+	i := strings.Index(line, tag)
+	if i < 0 {
+		return "?"
+	}
+	rest := line[i+len(tag):]
+	if j := strings.IndexByte(rest, ']'); j >= 0 {
+		return rest[:j]
+	}
+	return rest
+}
+
 // ProtoCanonical: unmarshal-then-marshal is the identity on every stored proto value (hypothesis of the theorems).
 func (w *c13World) c13CheckCanonical(r *Rec) {
 	cdc := w.app.AppCodec()
@@ -728,6 +787,8 @@ func c13Slug(msg string) string {
 			return "type-mismatch:" + rest[0] + "-vs-" + rest[len(rest)-1]
 		}
 		return "type-mismatch"
+	case strings.Contains(msg, "per block reward"):
+		return "rvesting-per-block-reward"
 	case strings.Contains(msg, "height cannot be zero"):
 		return "zero-height"
 	case strings.Contains(msg, "metadata value cannot be empty"):
@@ -1083,7 +1144,7 @@ type c13Client struct {
 
 // create / toggle are proposal-level operations: they may be rejected (ClientState.Validate, Initialize)
 func c13MayFail(op, out string) bool {
-	return out == "err" && (strings.HasPrefix(op, "create ") || strings.HasPrefix(op, "toggle ") || strings.HasPrefix(op, "upgrade "))
+	return out == "err" && (strings.HasPrefix(op, "create ") || strings.HasPrefix(op, "toggle ") || strings.HasPrefix(op, "upgrade ") || strings.HasPrefix(op, "rvparams "))
 }
 
 type c13Fix struct {
@@ -1418,17 +1479,100 @@ func (w *c13World) genHistory(r *Rec, emit func(string), size int) {
 		}
 		r.Count("pair")
 	}
-	// parameters (all four are always present: SetParamSet writes every key)
+	// parameters (all four are always present: SetParamSet writes every key). aggregate: two booleans, both ways.
 	rb := func() string { return []string{"true", "false"}[r.Rng.Intn(2)] }
 	emit(fmt.Sprintf("param %s %s %s", hxs("aggregate"), hxs("EnableAggregate"), hxs(rb())))
 	emit(fmt.Sprintf("param %s %s %s", hxs("aggregate"), hxs("EnableEVMHook"), hxs(rb())))
-	emit(fmt.Sprintf("param %s %s %s", hxs("rvesting"), hxs("EnableVesting"), hxs(rb())))
-	var cs []string
-	for j, n := 0, 1+r.Rng.Intn(3); j < n; j++ {
-		cs = append(cs, fmt.Sprintf(`{"denom":"%s","amount":"%d"}`, []string{"atele", "btele", "ctele"}[j], r.Rng.Int63n(1000000)))
+	if r.Rng.Intn(4) == 0 {
+		emit(fmt.Sprintf("param %s %s %s", hxs("aggregate"), hxs([]string{"EnableAggregate", "EnableEVMHook"}[r.Rng.Intn(2)]), hxs(rb())))
 	}
-	emit(fmt.Sprintf("param %s %s %s", hxs("rvesting"), hxs("PerBlockReward"), hxs("["+strings.Join(cs, ",")+"]")))
+	// rvesting: every shape of reward list the module's validator accepts, set the way a ParameterChangeProposal does or by genesis
+	via := func() string { return []string{"prop", "genesis"}[r.Rng.Intn(2)] }
+	emit(c13RvParamsLine(r, via(), true))
+	for i := r.Rng.Intn(3); i > 0; i-- {
+		emit(c13RvParamsLine(r, via(), r.Rng.Intn(3) != 0))
+	}
 	r.Count("params")
+}
+
+var c13Denoms = []string{"atele", "btele", "ctele", "zzz", "aaa", "paused", "Uatom", "x-y/z-1",
+	"ibc/27394FB092D2ECCD56123C74F36E4C1F926001CEADA9CA97EA622B25F41E5EB2", "aa0", "zz9", "mmm"}
+
+// one `rvparams` line; valid = accepted by validatePerBlockReward (NOT necessarily sorted or free of zero amounts)
+func c13RvParamsLine(r *Rec, via string, valid bool) string {
+	n := 1
+	switch r.Rng.Intn(10) {
+	case 0, 1, 2:
+		n = 1
+		r.Count("rvparams.gen.single")
+	case 3, 4, 5, 6:
+		n = 2 + r.Rng.Intn(2)
+	default:
+		n = 4 + r.Rng.Intn(6)
+		r.Count("rvparams.gen.many")
+	}
+	perm := r.Rng.Perm(len(c13Denoms))[:n]
+	ds := make([]string, n)
+	for i, j := range perm {
+		ds[i] = c13Denoms[j]
+	}
+	if r.Rng.Intn(4) == 0 {
+		sort.Strings(ds)
+	}
+	if !sort.StringsAreSorted(ds) {
+		r.Count("rvparams.gen.unsorted")
+	} else {
+		r.Count("rvparams.gen.sorted")
+	}
+	amts := make([]string, n)
+	for i := range amts {
+		switch r.Rng.Intn(5) {
+		case 0:
+			amts[i] = "1"
+		case 1:
+			amts[i] = "100000000000000000"
+		case 2:
+			amts[i] = "123456789012345678901234567890123456"
+		default:
+			amts[i] = strconv.FormatInt(1+r.Rng.Int63n(1000000), 10)
+		}
+	}
+	switch r.Rng.Intn(8) {
+	case 0, 1:
+		amts[r.Rng.Intn(n)] = "0"
+		r.Count("rvparams.gen.zero-one")
+	case 2:
+		for i := range amts {
+			amts[i] = "0"
+		}
+		r.Count("rvparams.gen.zero-all")
+	}
+	if !valid {
+		switch r.Rng.Intn(6) {
+		case 0:
+			ds, amts = nil, nil // empty list
+		case 1:
+			ds = append(ds, ds[0]) // duplicate denomination
+			amts = append(amts, "7")
+		case 2:
+			ds[r.Rng.Intn(n)] = []string{"A B", "1ab", "ab", "", "a!c", "x.y", "a_b", "a:b"}[r.Rng.Intn(8)]
+		case 3:
+			amts[r.Rng.Intn(n)] = "-5"
+		case 4:
+			amts[r.Rng.Intn(n)] = "nil"
+		default:
+			ds = append(ds, ds[len(ds)-1])
+			amts = append(amts, "0")
+		}
+		r.Count("rvparams.gen.invalid")
+	}
+	en := r.Rng.Intn(2)
+	r.Count(fmt.Sprintf("rvparams.gen.enable-%d", en))
+	line := fmt.Sprintf("rvparams %s %d %d", via, en, len(ds))
+	for i := range ds {
+		line += " " + hxs(ds[i]) + " " + amts[i]
+	}
+	return line
 }
 
 // ---- whole-app export / init (app/export.go) ------------------------------------------------------------------
@@ -1539,6 +1683,20 @@ func c13WriteCorpus(t *testing.T, r *Rec, dir string) {
 		}},
 		{"fixed-bsc-no-validators-rejected", func(emit func(string)) {
 			w.genCreateAt(r, "bsc", "bsc-empty", emit, c13Fix{set: true, rev: 0, h: 200, nval: 0})
+		}},
+		{"rv-unsorted-reward", func(emit func(string)) {
+			// reward lists the validator accepts but sdk.NewCoins would change: unsorted (set by a parameter-change proposal)
+			emit(fmt.Sprintf("rvparams prop 1 2 %s 5 %s 7", hxs("zzz"), hxs("aaa")))
+		}},
+		{"rv-zero-amount-reward", func(emit func(string)) {
+			emit(fmt.Sprintf("rvparams genesis 0 2 %s 100 %s 0", hxs("atele"), hxs("paused")))
+		}},
+		{"rv-all-zero-reward", func(emit func(string)) {
+			// every amount zero: a canonicalising export would carry an empty list, which fails the module's own ValidateGenesis
+			emit(fmt.Sprintf("rvparams prop 1 2 %s 0 %s 0", hxs("btele"), hxs("atele")))
+			emit(fmt.Sprintf("rvparams prop 1 0"))                                      // rejected: empty
+			emit(fmt.Sprintf("rvparams genesis 1 2 %s 1 %s 2", hxs("atele"), hxs("atele"))) // rejected: duplicate
+			emit(fmt.Sprintf("rvparams prop 1 1 %s 3", hxs("a.b")))                     // rejected: '.' is not a denom character in sdk v0.45
 		}},
 		{"tss-upgrade-no-consensus-state", func(emit func(string)) {
 			// /repo 6c33891: no consensus state is stored for a TSS client on create, upgrade or toggle, whatever consensus state
